@@ -715,7 +715,7 @@ Lemma step_refines : forall sort s o, sort_ok sort -> store_ok s -> op_ok o ->
   (e = 0 \/ e = E_NXKEY \/ e = E_NXVAL) /\
   (e <> 0 -> s' = s).
 Proof.
-  intros sort s o HS Hs Ho. destruct o as [k v|k v|adds dels| |]; cbn [model_step spec_step].
+  intros sort s o HS Hs Ho. destruct o as [k v|k v|adds dels| | | |c]; cbn [model_step spec_step].
   - destruct (add_refines s k v Hs Ho) as [A B]. cbn [fst snd].
     refine (conj A (conj B (conj eq_refl (conj (or_introl eq_refl) _)))). intro X; contradiction.
   - pose proof (del_refines s k v Hs) as P. destruct (del s k v) as [s'|e]; cbn [fst snd].
@@ -731,6 +731,10 @@ Proof.
       refine (conj A (conj C (conj eq_refl (conj (or_introl eq_refl) _)))). intro X; contradiction.
     + destruct P as [E B]. rewrite B. cbn [fst snd]. subst e.
       refine (conj Hs (conj (fun k' => eq_refl) (conj eq_refl (conj (or_intror (or_intror eq_refl)) (fun _ => eq_refl))))).
+  - cbn [fst snd].
+    refine (conj Hs (conj (fun k' => eq_refl) (conj eq_refl (conj (or_introl eq_refl) (fun _ => eq_refl))))).
+  - cbn [fst snd].
+    refine (conj Hs (conj (fun k' => eq_refl) (conj eq_refl (conj (or_introl eq_refl) (fun _ => eq_refl))))).
   - cbn [fst snd].
     refine (conj Hs (conj (fun k' => eq_refl) (conj eq_refl (conj (or_introl eq_refl) (fun _ => eq_refl))))).
   - cbn [fst snd].
@@ -989,4 +993,145 @@ Proof.
   repeat split; try assumption.
   - rewrite (proj1 (reads_refine _ k A)). unfold m_for_each. rewrite B. reflexivity.
   - rewrite (proj2 (reads_refine _ k A)). unfold m_find. rewrite B. reflexivity.
+Qed.
+
+(* ---------------------------------------------------------------- backups into one directory *)
+
+Definition bstate_ok (st : store * option store) : Prop :=
+  store_ok (fst st) /\ match snd st with Some b => store_ok b | None => True end.
+Definition bstate_rel (st : store * option store) (sp : bmap) : Prop :=
+  smap_eq (abs (fst st)) (fst sp) /\
+  match snd st, snd sp with
+  | Some b, Some bm => smap_eq (abs b) bm
+  | None, None => True
+  | _, _ => False
+  end.
+
+Lemma bstep_refines : forall sort st sp o, sort_ok sort -> bstate_ok st -> bstate_rel st sp -> op_ok o ->
+  bstate_ok (fst (model_bstep sort st o)) /\
+  bstate_rel (fst (model_bstep sort st o)) (fst (spec_bstep sort sp o)) /\
+  snd (spec_bstep sort sp o) = failed (snd (model_bstep sort st o)) /\
+  (let e := snd (model_bstep sort st o) in e = 0 \/ e = E_NXKEY \/ e = E_NXVAL \/ e = E_OTHER) /\
+  (snd (model_bstep sort st o) <> 0 -> fst (model_bstep sort st o) = st).
+Proof.
+  intros sort [s b] [m bm] o HS [Hs Hb] [Rm Rb] Ho. cbn [fst snd] in *.
+  assert (BASE : forall o', op_ok o' ->
+    let r := model_step sort s o' in let q := spec_step sort m o' in
+    bstate_ok (fst r, b) /\ bstate_rel (fst r, b) (fst q, bm) /\ snd q = failed (snd r) /\
+    (snd r = 0 \/ snd r = E_NXKEY \/ snd r = E_NXVAL \/ snd r = E_OTHER) /\ (snd r <> 0 -> (fst r, b) = (s, b))).
+  { intros o' Ho'. cbv zeta.
+    destruct (step_refines sort s o' HS Hs Ho') as [A [B [C [D E]]]].
+    destruct (spec_step_ext sort (abs s) m o' Rm) as [X Y].
+    split; [split; assumption|]. split; [split; [intro k; cbn [fst]; rewrite B; apply Y | exact Rb]|].
+    split; [rewrite <- X; exact C|].
+    split; [destruct D as [D|[D|D]]; auto|]. intro F. rewrite (E F). reflexivity. }
+  destruct o as [k v|k v|adds dels| | | |c].
+  1-5: (cbn [model_bstep spec_bstep];
+        match goal with |- context [model_step _ _ ?o'] => specialize (BASE o' Ho) end;
+        cbv zeta in BASE;
+        destruct (model_step _ _ _) as [s' e]; destruct (spec_step _ _ _) as [m' f];
+        cbn [fst snd] in *; exact BASE).
+  - (* OBackup: the snapshot becomes the current store / map *)
+    cbn [model_bstep spec_bstep fst snd].
+    split; [split; assumption|]. split; [split; assumption|]. split; [reflexivity|].
+    split; [left; reflexivity | intro F; contradiction].
+  - (* ORestore: the latest snapshot *)
+    cbn [model_bstep spec_bstep]. destruct b as [bs|], bm as [bmm|]; try contradiction; cbn [fst snd].
+    + split; [split; [destruct c; assumption | assumption]|].
+      split; [split; [destruct c; assumption | assumption]|]. split; [reflexivity|].
+      split; [left; reflexivity | intro F; contradiction].
+    + split; [split; [assumption | exact I]|]. split; [split; [assumption | exact I]|]. split; [reflexivity|].
+      split; [right; right; right; reflexivity | intro F; reflexivity].
+Qed.
+
+Lemma model_brun_cons : forall sort st o r,
+  model_brun sort st (o :: r) =
+  (fst (model_brun sort (fst (model_bstep sort st o)) r),
+   snd (model_bstep sort st o) :: snd (model_brun sort (fst (model_bstep sort st o)) r)).
+Proof.
+  intros. cbn [model_brun]. destruct (model_bstep sort st o) as [st1 e]. cbn [fst snd].
+  destruct (model_brun sort st1 r). reflexivity.
+Qed.
+
+Lemma spec_brun_cons : forall ord st o r,
+  spec_brun ord st (o :: r) =
+  (fst (spec_brun ord (fst (spec_bstep ord st o)) r),
+   snd (spec_bstep ord st o) :: snd (spec_brun ord (fst (spec_bstep ord st o)) r)).
+Proof.
+  intros. cbn [spec_brun]. destruct (spec_bstep ord st o) as [st1 e]. cbn [fst snd].
+  destruct (spec_brun ord st1 r). reflexivity.
+Qed.
+
+(* unbounded histories with backups and restores: store and latest snapshot abstract to the
+   specification's map and latest snapshot, with the same failures *)
+Theorem brun_refines : forall sort, sort_ok sort -> forall ops st sp,
+  bstate_ok st -> bstate_rel st sp -> Forall op_ok ops ->
+  bstate_ok (fst (model_brun sort st ops)) /\
+  bstate_rel (fst (model_brun sort st ops)) (fst (spec_brun sort sp ops)) /\
+  map failed (snd (model_brun sort st ops)) = snd (spec_brun sort sp ops) /\
+  Forall (fun e => e = 0 \/ e = E_NXKEY \/ e = E_NXVAL \/ e = E_OTHER) (snd (model_brun sort st ops)).
+Proof.
+  intros sort HS. induction ops as [|o r IH]; intros st sp Hs Hr Ho.
+  - cbn. repeat split; try apply Hs; try apply Hr. constructor.
+  - inversion Ho as [|? ? Ho1 Hor]; subst.
+    rewrite model_brun_cons, spec_brun_cons. cbn [fst snd].
+    destruct (bstep_refines sort st sp o HS Hs Hr Ho1) as [A [B [C [D _]]]].
+    destruct (IH _ _ A B Hor) as [I1 [I2 [I3 I4]]].
+    split; [assumption|]. split; [assumption|]. split.
+    + cbn [map]. rewrite I3, C. reflexivity.
+    + constructor; assumption.
+Qed.
+
+(* only OBackup changes the snapshot: whatever else happens in between, a restore yields the
+   map as of the latest backup *)
+Lemma snapshot_kept : forall ord ops m b, Forall (fun o => o <> OBackup) ops ->
+  snd (fst (spec_brun ord (m, b) ops)) = b.
+Proof.
+  induction ops as [|o r IH]; intros m b H; [reflexivity|].
+  inversion H as [|? ? H1 Hr]; subst. rewrite spec_brun_cons. cbn [fst].
+  destruct o as [k v|k v|adds dels| | | |c]; try (exfalso; apply H1; reflexivity); cbn [spec_bstep].
+  1-5: (destruct (spec_step ord m _) as [m' f]; cbn [fst]; apply IH; assumption).
+  destruct b as [bm|]; cbn [fst]; apply IH; assumption.
+Qed.
+
+Theorem restore_yields_latest_backup : forall ord ops m0 b0 cont,
+  Forall (fun o => o <> OBackup) ops ->
+  let m := fst (fst (spec_bstep ord (m0, b0) OBackup)) in          (* the map when the backup is taken *)
+  let st := fst (spec_brun ord (m0, b0) (OBackup :: ops)) in        (* ... and after any later operations *)
+  m = m0 /\ spec_restored st = Some m0 /\
+  spec_bstep ord st (ORestore cont) = ((if cont then m0 else fst st, Some m0), false).
+Proof.
+  intros ord ops m0 b0 cont H. cbv zeta. rewrite spec_brun_cons. cbn [spec_bstep fst snd].
+  pose proof (snapshot_kept ord ops m0 (Some m0) H) as K.
+  destruct (fst (spec_brun ord (m0, Some m0) ops)) as [m1 b1] eqn:E. cbn [snd fst] in *. subst b1.
+  unfold spec_restored. cbn [snd]. repeat split.
+Qed.
+
+(* the property over unbounded histories including backups into one directory and restores *)
+Theorem refines_map_of_lists_b : forall sort, sort_ok sort -> forall ops, Forall op_ok ops ->
+  let r := model_brun sort (empty_store, None) ops in
+  let sp := spec_brun sort (m_empty, None) ops in
+  store_ok (fst (fst r)) /\
+  smap_eq (abs (fst (fst r))) (fst (fst sp)) /\
+  (match snd (fst r), spec_restored (fst sp) with          (* what a restore would show *)
+   | Some b, Some bm => store_ok b /\ smap_eq (abs b) bm
+   | None, None => True
+   | _, _ => False
+   end) /\
+  map failed (snd r) = snd sp /\
+  Forall (fun e => e = 0 \/ e = E_NXKEY \/ e = E_NXVAL \/ e = E_OTHER) (snd r) /\
+  (forall k, rdb_for_each (fst (fst r)) k = (m_for_each (fst (fst sp)) k, 0) /\
+             rdb_find (fst (fst r)) k = match m_find (fst (fst sp)) k with Some v => Ok v | None => Err E_EOF end).
+Proof.
+  intros sort HS ops Ho. cbv zeta.
+  destruct (brun_refines sort HS ops (empty_store, None) (m_empty, None)) as [[A1 A2] [[B1 B2] [C D]]].
+  - split; [apply store_ok_empty | exact I].
+  - split; [apply abs_empty | exact I].
+  - assumption.
+  - split; [assumption|]. split; [assumption|]. split.
+    { unfold spec_restored. destruct (snd (fst (model_brun sort (empty_store, None) ops))),
+        (snd (fst (spec_brun sort (m_empty, None) ops))); try contradiction; [split; assumption | exact I]. }
+    split; [assumption|]. split; [assumption|]. intro k. split.
+    + rewrite (proj1 (reads_refine _ k A1)). unfold m_for_each. rewrite B1. reflexivity.
+    + rewrite (proj2 (reads_refine _ k A1)). unfold m_find. rewrite B1. reflexivity.
 Qed.
